@@ -2,7 +2,8 @@
 C11 — property theorems about the model in `NipyVerif.Model.C11`.
 Only property statements and their non-vacuity examples live here.
 -/
-import NipyVerif.Lemmas.C11
+import NipyVerif.Lemmas.C11Kru
+import NipyVerif.Lemmas.C11Grid
 
 namespace NipyVerif.C11
 
@@ -41,8 +42,8 @@ theorem sssp_dist_achievable (g : Graph) (vec : Bool) (seeds : List Nat) (v : Na
 
 /-- `dijkstra` returns the true distances whenever the relaxation certificate (seeds at 0, every
 edge relaxed), which the model evaluates on its own output and the correspondence run observes to
-be `ok` on every case, holds.  PARTIAL: the loop invariant showing that the certificate always
-holds for non-negative weights (popped keys are monotone, `V` iterations suffice) is not proved. -/
+be `ok` on every case, holds.  Certificate form (hence `_partial`); the certificate itself is proved
+to hold for all non-negative weights in `dijkstra_certificate_holds`, giving `dijkstra_correct`. -/
 theorem dijkstra_correct_partial (g : Graph) (seeds : List Nat)
     (hc : certOK g seeds (dijkstra g seeds) = true) (v : Nat) :
     (∀ b, (dijkstra g seeds).getD v none = some b →
@@ -60,17 +61,72 @@ theorem dijkstra_correct_partial (g : Graph) (seeds : List Nat)
   · intro v b hv
     exact sssp_dist_achievable g true seeds v b hv
 
+/-- **Shortest paths, full statement** (clause "on every weighted directed graph, shortest-path
+distances equal the true minimum path lengths, infinite when unreachable"): for every graph whose
+weights are non-negative (`NonNeg`, the complement of the guard that raises `ValueError`), whose edges
+join vertices of the graph (`WF`, what the constructor enforces) and every list of seeds `< V`
+(duplicates allowed), the heap loop of `dijkstra` as written — heap with stale entries popped at
+its lexicographic minimum, at most `V` rounds, vectorised relaxation with the comparison against
+the distances before the slice assignment — returns for every vertex the minimum length of a walk
+from a seed, and `inf` exactly for the vertices no seed reaches.  No certificate is assumed: the
+loop invariant (`DInv`: settled vertices are final and relaxed, every tentative distance is the
+length of a walk and has a heap entry, the popped vertex has minimal tentative distance) is proved
+in `Lemmas/C11Dij.lean`.  Directed multigraphs, loops, parallel edges and zero weights included. -/
+theorem dijkstra_correct (g : Graph) (hn : NonNeg g) (hw : WF g) (seeds : List Nat)
+    (hs : ∀ s ∈ seeds, s < g.V) (v : Nat) :
+    (∀ b, (dijkstra g seeds).getD v none = some b →
+        (∃ s ∈ seeds, Path g s v b) ∧ ∀ s ∈ seeds, ∀ l, Path g s v l → b ≤ l) ∧
+    ((dijkstra g seeds).getD v none = none → ∀ s ∈ seeds, ∀ l, ¬ Path g s v l) :=
+  dijkstra_correct_partial g seeds (sssp_cert g hn hw seeds hs true) v
+
+/-- the certificate that `dijkstra_correct_partial` assumes always holds (so the `| ok` the model
+prints for every correspondence line is a theorem, not an observation) -/
+theorem dijkstra_certificate_holds (g : Graph) (hn : NonNeg g) (hw : WF g) (seeds : List Nat)
+    (hs : ∀ s ∈ seeds, s < g.V) : certOK g seeds (dijkstra g seeds) = true :=
+  sssp_cert g hn hw seeds hs true
+
+/-- "∞ iff unreachable" as an equivalence: a vertex has a finite entry exactly when some seed
+reaches it. -/
+theorem dijkstra_finite_iff_reachable (g : Graph) (hn : NonNeg g) (hw : WF g) (seeds : List Nat)
+    (hs : ∀ s ∈ seeds, s < g.V) (v : Nat) :
+    (∃ b, (dijkstra g seeds).getD v none = some b) ↔ ∃ s ∈ seeds, ∃ l, Path g s v l := by
+  have h := dijkstra_correct g hn hw seeds hs v
+  constructor
+  · rintro ⟨b, hb⟩
+    obtain ⟨⟨s, hs', hp⟩, _⟩ := h.1 b hb
+    exact ⟨s, hs', b, hp⟩
+  · rintro ⟨s, hs', l, hp⟩
+    cases hd : (dijkstra g seeds).getD v none with
+    | some b => exact ⟨b, rfl⟩
+    | none => exact absurd hp (h.2 hd s hs' l)
+
+/-- `floyd(seeds)` stacks one `dijkstra(s)` row per seed: every row is the true single-source
+distance vector. -/
+theorem floyd_rows_correct (g : Graph) (hn : NonNeg g) (hw : WF g) (seeds : List Nat)
+    (hs : ∀ s ∈ seeds, s < g.V) (s : Nat) (hmem : s ∈ seeds) (v : Nat) :
+    (∀ b, (dijkstra g [s]).getD v none = some b → Path g s v b ∧ ∀ l, Path g s v l → b ≤ l) ∧
+    ((dijkstra g [s]).getD v none = none → ∀ l, ¬ Path g s v l) := by
+  have h := dijkstra_correct g hn hw [s] (by intro x hx; simp only [List.mem_singleton] at hx; subst hx; exact hs x hmem) v
+  constructor
+  · intro b hb
+    obtain ⟨⟨s', hs', hp⟩, hmin⟩ := h.1 b hb
+    simp only [List.mem_singleton] at hs'
+    subst hs'
+    exact ⟨hp, fun l hl => hmin s' (by simp) l hl⟩
+  · intro hn' l
+    exact h.2 hn' s (by simp) l
+
 /-- Voronoi clause ("assigns each reachable vertex to a nearest seed in graph distance and marks
 unreachable vertices"): when the Voronoi certificate holds (evaluated by the model on its output,
 observed `ok` on every case), an unlabelled vertex is reachable from no seed, and a vertex
 labelled `i` is joined to seed number `i` by a walk that is no longer than any walk from any seed.
-PARTIAL for the same reason as `dijkstra_correct_partial`. -/
+Certificate form; the unconditional statement is `voronoi_nearest_seed`. -/
 theorem voronoi_nearest_partial (g : Graph) (seeds : List Nat) (lab : List (Option Nat))
     (hc : voronoiCert g seeds lab = true) (v : Nat) (hv : v < g.V) :
     (lab.getD v none = none → ∀ s ∈ seeds, ∀ l, ¬ Path g s v l) ∧
     (∀ i, lab.getD v none = some i → ∃ s b, seeds[i]? = some s ∧ Path g s v b ∧
         ∀ s' ∈ seeds, ∀ l, Path g s' v l → b ≤ l) := by
-  simp only [voronoiCert, Bool.and_eq_true, List.all_eq_true, List.mem_range] at hc
+  simp only [voronoiCert, voronoiCertWith, Bool.and_eq_true, List.all_eq_true, List.mem_range] at hc
   obtain ⟨⟨hS, hI⟩, hL⟩ := hc
   have hLv := hL v hv
   have hDS := dijkstra_correct_partial g seeds hS v
@@ -105,6 +161,52 @@ theorem voronoi_nearest_partial (g : Graph) (seeds : List Nat) (lab : List (Opti
             subst hs0
             exact ⟨s0, b, rfl, hpath, (hDS.1 b hb).2⟩
 
+/-- **Voronoi labelling, full statement** (clause "assigns each reachable vertex to a nearest seed
+in graph distance and marks unreachable vertices"): for non-negative weights, well-formed edges and
+seeds `< V`, the sequential-relaxation loop of `voronoi_labelling` as written leaves `-1` exactly on
+the vertices no seed reaches, and a vertex labelled `i` is joined to seed number `i` by a walk that
+is at most as long as every walk from every seed (directed graphs included; on the symmetric graphs
+the property quantifies over this is the nearest seed in graph distance).  Proved from the loop
+invariants `DInv` (distances) and `LInv` (a label always names the seed whose walk realises the
+stored distance); no certificate is assumed. -/
+theorem voronoi_nearest_seed (g : Graph) (hn : NonNeg g) (hw : WF g) (seeds : List Nat)
+    (hs : ∀ s ∈ seeds, s < g.V) (v : Nat) :
+    ((voronoi g seeds).getD v none = none → ∀ s ∈ seeds, ∀ l, ¬ Path g s v l) ∧
+    (∀ i, (voronoi g seeds).getD v none = some i → ∃ s b, seeds[i]? = some s ∧ Path g s v b ∧
+        ∀ s' ∈ seeds, ∀ l, Path g s' v l → b ≤ l) := by
+  have hL := sssp_linv g hn hw seeds hs false
+  have hc := sssp_cert g hn hw seeds hs false
+  simp only [certOK, Bool.and_eq_true, seedsZero, relaxedAll, List.all_eq_true, beq_iff_eq] at hc
+  have hsp := sp_certificate_sound g seeds (fun v => (sssp g false seeds).dist.getD v none) hc.1
+    (by
+      intro u w' w a he hu
+      have := hc.2 (u, w', w) he
+      simp only [hu] at this
+      cases hv : (sssp g false seeds).dist.getD w' none with
+      | none => rw [hv] at this; simp at this
+      | some b => rw [hv] at this; simp only [decide_eq_true_eq] at this; exact ⟨b, rfl, this⟩)
+    (fun v b hv => sssp_dist_achievable g false seeds v b hv) v
+  constructor
+  · intro hnone
+    exact hsp.2 (hL.unl v hnone)
+  · intro i hi
+    obtain ⟨s, b, hsi, hd, hp⟩ := hL.lab v i hi
+    exact ⟨s, b, hsi, hp, (hsp.1 b hd).2⟩
+
+/-- a label is `-1` exactly when the vertex is unreachable from every seed -/
+theorem voronoi_unlabelled_iff_unreachable (g : Graph) (hn : NonNeg g) (hw : WF g) (seeds : List Nat)
+    (hs : ∀ s ∈ seeds, s < g.V) (v : Nat) :
+    (voronoi g seeds).getD v none = none ↔ ∀ s ∈ seeds, ∀ l, ¬ Path g s v l := by
+  have h := voronoi_nearest_seed g hn hw seeds hs v
+  constructor
+  · exact h.1
+  · intro hun
+    cases hl : (voronoi g seeds).getD v none with
+    | none => rfl
+    | some i =>
+        obtain ⟨s, b, hsi, hp, _⟩ := h.2 i hl
+        exact absurd hp (hun s (List.mem_of_getElem? hsi) b)
+
 /-! ## Queries describe the current graph (operation histories) -/
 
 /-- Walks, hence true distances, reachability and nearest seeds, depend only on the *set* of
@@ -125,8 +227,8 @@ theorem path_edges_congr (g1 g2 : Graph) (h : ∀ e, e ∈ g1.edges ↔ e ∈ g2
 /-- After any history of structural operations on one object, `dijkstra` answers for the graph the
 object holds *now* (`runHistory g ops`): its finite entries are minimum walk lengths of that graph
 and `inf` means unreachable in it — under the same certificate as `dijkstra_correct_partial`,
-which the correspondence run evaluates after every step of every generated history.  PARTIAL for
-the reason stated there. -/
+which the correspondence run evaluates after every step of every generated history.  Certificate
+form; the unconditional statement is `history_dijkstra`. -/
 theorem history_dijkstra_partial (g : Graph) (ops : List Op) (seeds : List Nat)
     (hc : certOK (runHistory g ops) seeds (dijkstra (runHistory g ops) seeds) = true) (v : Nat) :
     (∀ b, (dijkstra (runHistory g ops) seeds).getD v none = some b →
@@ -135,6 +237,19 @@ theorem history_dijkstra_partial (g : Graph) (ops : List Op) (seeds : List Nat)
     ((dijkstra (runHistory g ops) seeds).getD v none = none →
         ∀ s ∈ seeds, ∀ l, ¬ Path (runHistory g ops) s v l) :=
   dijkstra_correct_partial (runHistory g ops) seeds hc v
+
+/-- Histories, full statement: after any sequence of structural operations the answer of
+`dijkstra` is the true distance vector of the graph the object holds now, provided that graph has
+non-negative weights and well-formed edges (no certificate). -/
+theorem history_dijkstra (g : Graph) (ops : List Op) (seeds : List Nat)
+    (hn : NonNeg (runHistory g ops)) (hw : WF (runHistory g ops))
+    (hs : ∀ s ∈ seeds, s < (runHistory g ops).V) (v : Nat) :
+    (∀ b, (dijkstra (runHistory g ops) seeds).getD v none = some b →
+        (∃ s ∈ seeds, Path (runHistory g ops) s v b) ∧
+        ∀ s ∈ seeds, ∀ l, Path (runHistory g ops) s v l → b ≤ l) ∧
+    ((dijkstra (runHistory g ops) seeds).getD v none = none →
+        ∀ s ∈ seeds, ∀ l, ¬ Path (runHistory g ops) s v l) :=
+  dijkstra_correct (runHistory g ops) hn hw seeds hs v
 
 /-- a history step by step: the state after `ops ++ [op]` is the operation applied to the state
 after `ops` (no other memory) -/
@@ -147,8 +262,8 @@ theorem runHistory_snoc (g : Graph) (ops : List Op) (op : Op) :
 /-- Component clause, direction "reachable ⇒ same label": when the closure certificate holds
 (every vertex labelled, every edge joins equal labels — evaluated by the model on the output of
 `cc`, observed `ok` on every symmetric case) two vertices joined by a chain of edges carry the
-same label.  PARTIAL: that `lil_cc` always produces a closed labelling, and that equal labels
-imply a chain, are checked by the oracle against union–find, not proved. -/
+same label.  Certificate form (any closed labelling); that `lil_cc` always produces a closed
+labelling and that equal labels imply a chain is `cc_closed` / `cc_label_eq_iff_reachable`. -/
 theorem cc_connected_same_label_partial (g : Graph) (lab : List (Option Nat))
     (hc : ccClosed g lab = true) (u v : Nat) (h : Conn g u v) :
     lab.getD u none = lab.getD v none := by
@@ -160,11 +275,42 @@ theorem cc_connected_same_label_partial (g : Graph) (lab : List (Option Nat))
       · rw [ih]; exact hc.2 _ he
       · rw [ih]; exact (hc.2 _ he).symm
 
+/-- the closure certificate always holds on symmetric graphs: every vertex is labelled and every
+edge joins equal labels (so the `| ok` of every `cc` line is a theorem) -/
+theorem cc_closed (g : Graph) (hw : WF g) (hs : Sym g) : ccClosed g (cc g) = true := by
+  obtain ⟨k, hC, _⟩ := cc_inv g hw hs
+  simp only [ccClosed, Bool.and_eq_true, List.all_eq_true, List.mem_range, beq_iff_eq]
+  refine ⟨fun v hv => ?_, fun e he => ?_⟩
+  · obtain ⟨j, hj⟩ := cc_labelled g hw hs v hv
+    rw [hj]; rfl
+  · obtain ⟨j, hj⟩ := cc_labelled g hw hs e.1 (hw e he).1
+    rw [hj, hC.closed e.1 e.2.1 e.2.2 j he hj]
+
+/-- **Connected components, full statement** (clause "on every symmetric graph, connected-component
+labels partition the vertices exactly by reachability"): for the `lil_cc` loop as written
+(first unvisited vertex as root, FIFO front, rows of the adjacency structure appended on a first
+visit; the fuel of the model is proved sufficient), on every graph with a symmetric edge set —
+loops, parallel edges, zero weights and isolated vertices included — two vertices carry the same
+label if and only if a chain of edges joins them. -/
+theorem cc_label_eq_iff_reachable (g : Graph) (hw : WF g) (hs : Sym g) (u v : Nat)
+    (hu : u < g.V) (_hv : v < g.V) :
+    (cc g).getD u none = (cc g).getD v none ↔ Conn g u v := by
+  constructor
+  · intro h
+    obtain ⟨k, hC, _⟩ := cc_inv g hw hs
+    obtain ⟨j, hj⟩ := cc_labelled g hw hs u hu
+    exact hC.conn u v j hj (by rw [← h]; exact hj)
+  · exact cc_connected_same_label_partial g (cc g) (cc_closed g hw hs) u v
+
+/-- every vertex receives a label (no `-1` is left) -/
+theorem cc_all_labelled (g : Graph) (hw : WF g) (hs : Sym g) (v : Nat) (hv : v < g.V) :
+    ∃ j, (cc g).getD v none = some j := cc_labelled g hw hs v hv
+
 /-! ## Spanning forest -/
 
 /-- Spanning-forest clause, the part proved: every edge `kruskal` selects is an edge of the graph
-(or the reverse of one) with its own weight.  Acyclicity, spanning and minimality are oracle-only
-(union–find and a reference minimum spanning forest on every case). -/
+(or the reverse of one) with its own weight, for every graph (also non-symmetric ones, where the
+full statements `kruskal_spanning_forest` / `kruskal_minimum` do not apply). -/
 theorem kruskal_edges_subset (g : Graph) (x : Edge) (h : x ∈ kruskal g) :
     x ∈ g.edges ∨ (x.2.1, x.1, x.2.2) ∈ g.edges := by
   unfold kruskal at h
@@ -172,6 +318,86 @@ theorem kruskal_edges_subset (g : Graph) (x : Edge) (h : x ∈ kruskal g) :
   · simp at h
   · exact Or.inl (by simpa [sortByWeight, List.mem_mergeSort] using h)
   · exact Or.inr (by simpa [sortByWeight, List.mem_mergeSort] using h)
+
+/-- the edge array `kruskal` returns lists each selected edge `kruskalT g` in both directions, one
+after the other (rows `2i`, `2i+1`) -/
+theorem kruskal_rows (g : Graph) : kruskal g = dir (kruskalT g) := kruskal_eq_dir g
+
+/-- **Spanning forest, full statement** (clause "spanning-tree routines return a spanning forest"):
+on every symmetric well-formed graph the edges `kruskal` selects (loop as written: edges sorted by
+weight, an edge skipped when its ends carry the same label, labels merged otherwise, stop after
+`V − k` selections where `k = cc().max() + 1`)
+* form a forest — each selected edge joins two vertices the earlier selections do not connect
+  (acyclic),
+* are edges of the graph,
+* connect exactly the pairs of vertices the graph connects (same components), and
+* are `V − k` in number, `k` the number of components (so the returned array has `2 (V − k)`
+  rows before the padding). -/
+theorem kruskal_spanning_forest (g : Graph) (hw : WF g) (hs : Sym g) :
+    Forest g.V (kruskalT g) ∧ (∀ e ∈ kruskalT g, e ∈ g.edges) ∧
+    (∀ u v, Conn g u v ↔ Conn ⟨g.V, kruskalT g⟩ u v) ∧
+    (kruskalT g).length + numCC (cc g) = g.V ∧ (kruskal g).length = 2 * (g.V - numCC (cc g)) := by
+  have h := kruskalT_facts g hw hs
+  refine ⟨h.forest, h.sub, fun u v => ⟨h.span u v, fun hc => conn_mono (V' := g.V) h.sub hc⟩, h.count, ?_⟩
+  rw [kruskal_rows]
+  have : ∀ F : List Edge, (dir F).length = 2 * F.length := by
+    intro F
+    induction F using List.reverseRecOn with
+    | nil => rfl
+    | append_singleton F e ih => rw [dir_snoc, List.length_append, ih]; simp; omega
+  rw [this]
+  have := h.count
+  omega
+
+/-- `cc().max() + 1`, which `kruskal` takes as the number of components, is the number of
+classes of the reachability relation (counted through the representatives of the labelling that
+merges the ends of every edge). -/
+theorem numCC_is_component_count (g : Graph) (hw : WF g) (hs : Sym g) :
+    numCC (cc g) = (reps g.V (comp g.V g.edges)).card := numCC_cc_eq_reps g hw hs
+
+/-- **Minimum-weight certificate** (general, independent of how `T` was obtained): if `T` is a
+forest of edges of `E` and the ends of every edge `e` of `E` are joined inside `T` by edges no heavier
+than `e` (equivalently: every non-tree edge is at least as heavy as every tree edge on the tree path
+between its ends), then `T` weighs no more than any forest `T'` of edges of `E` that connects what `E`
+connects.  Proof: for every threshold `t` the light part of `T'` is a forest inside the components
+of the light part of `T`, so it has no more edges (rank inequality, by counting components); equal
+sizes and this domination give the inequality of the sums.  The model evaluates this certificate
+on the output of `mst` (Borůvka on point clouds). -/
+theorem mst_certificate_sound (V : Nat) (E T T' : List Edge) (hE : WFE V E)
+    (hT : Forest V T) (hTE : ∀ e ∈ T, e ∈ E ∨ revE e ∈ E)
+    (hcert : ∀ e ∈ E, Conn ⟨V, leW e.2.2 T⟩ e.1 e.2.1)
+    (hT' : Forest V T') (hT'E : ∀ e ∈ T', e ∈ E ∨ revE e ∈ E)
+    (hspan' : ∀ e ∈ E, Conn ⟨V, T'⟩ e.1 e.2.1) : weight T ≤ weight T' :=
+  mst_certificate_sound' V E T T' hE hT hTE hcert hT' hT'E hspan'
+
+/-- **Minimality of `kruskal`** (clause "a spanning forest of minimum total weight"): on every
+symmetric well-formed graph — negative weights, ties, parallel edges and loops included — the
+selection of `kruskal` weighs no more than any spanning forest `T'` of the graph (a forest of graph
+edges, in either direction, connecting what the graph connects).  No certificate is assumed: the
+loop invariant establishes it (an edge is skipped only when lighter selected edges already join
+its ends). -/
+theorem kruskal_minimum (g : Graph) (hw : WF g) (hs : Sym g) (T' : List Edge) (hT' : Forest g.V T')
+    (hsub : ∀ e ∈ T', e ∈ g.edges ∨ revE e ∈ g.edges) (hspan : ∀ u v, Conn g u v → Conn ⟨g.V, T'⟩ u v) :
+    weight (kruskalT g) ≤ weight T' := by
+  have h := kruskalT_facts g hw hs
+  exact mst_certificate_sound' g.V g.edges (kruskalT g) T' hw h.forest (fun e he => Or.inl (h.sub e he))
+    h.cert hT' hsub (fun e he => hspan _ _ (Conn.step (Conn.refl _) (Or.inl he)))
+
+/-- `mst(X)` (Borůvka rounds on a point cloud): the model evaluates `mstCertB` on every output
+(complete graph on the points with the squared distances, the selected rows as `T`) and prints `ok`;
+whenever that check succeeds, the selection weighs no more than any spanning tree of the complete
+graph.  (Squared lengths order the edges exactly as lengths do; minimality of the sum of lengths
+is the oracle's clause.)  PARTIAL in the sense that the certificate is evaluated per output, not
+proved to hold for every point cloud. -/
+theorem mst_checked_minimal_partial (V : Nat) (E T : List Edge) (h : mstCertB V E T = true) (T' : List Edge)
+    (hT' : Forest V T') (hT'E : ∀ e ∈ T', e ∈ E ∨ revE e ∈ E) (hspan' : ∀ e ∈ E, Conn ⟨V, T'⟩ e.1 e.2.1) :
+    weight T ≤ weight T' := mstCertB_sound V E T h T' hT' hT'E hspan'
+
+/-- the rank inequality behind both results: a forest whose edges lie inside the components of
+another edge set has no more edges than that set (so all spanning forests of a graph have the same
+number of edges, `V − k`) -/
+theorem forest_rank_le (V : Nat) (A B : List Edge) (hA : WFE V A) (hB : WFE V B) (hf : Forest V A)
+    (hspan : ∀ e ∈ A, Conn ⟨V, B⟩ e.1 e.2.1) : A.length ≤ B.length := forest_card_le V A B hA hB hf hspan
 
 /-! ## Structural operations against the weighted adjacency matrix -/
 
@@ -371,6 +597,193 @@ theorem crossEps_mem (n1 n2 : Nat) (sq : List (List Rat)) (eps tiny : Rat) (i j 
   · rintro ⟨hi, hj, hlt, rfl⟩
     exact ⟨i, hi, j, hj, by simp [hlt]⟩
 
+/-- **Lattice neighbourhoods** (clause "the 6/18/26 lattice neighbourhoods … for all sets of lattice
+coordinates"): for every list of pairwise distinct lattice points — any shape, any offset from the
+origin — `graph_3d_grid(xyz, k)` as written (shift to the bounding-box corner, base
+`m = 3·Σ extents + 2`, one linear code per direction, `argsort`, neighbours in the sorted order
+whose codes differ by exactly `l1dist`) contains the row `(i, j, l)` if and only if points `i` and
+`j` both exist and their difference is a unit offset (all components in {−1, 0, 1}) of squared
+length `l`, with `l = 1` always, `l = 2` when `k ≥ 18` and `l = 3` when `k = 26`.
+The direction tables `n6`/`n18`/`n26` and the base are regenerated from the source text by the
+translator (`Gen/C11Grid.lean`); `RowOK` (digits below the base, unique unit solution) is re-proved
+for every regenerated row, so a change of a table entry or of the base breaks this build unless the
+argument still goes through. -/
+theorem grid3d_edge_iff (xyz : List Pt) (hnd : xyz.Nodup) (k i j : Nat) (l : Int) :
+    (i, j, l) ∈ grid3d xyz k ↔
+      ∃ p q, xyz[i]? = some p ∧ xyz[j]? = some q ∧ unitOffset (sub3 q p) l ∧
+        (l = 1 ∨ (l = 2 ∧ 18 ≤ k) ∨ (l = 3 ∧ k = 26)) := by
+  unfold grid3d
+  rw [List.mem_mergeSort]
+  exact gridEdges_iff xyz hnd k i j l
+
+/-- the lattice graph is symmetric: `(i, j)` is a row exactly when `(j, i)` is, with the same
+length -/
+theorem grid3d_symmetric (xyz : List Pt) (hnd : xyz.Nodup) (k i j : Nat) (l : Int) :
+    (i, j, l) ∈ grid3d xyz k ↔ (j, i, l) ∈ grid3d xyz k := by
+  have flip : ∀ p q : Pt, unitOffset (sub3 q p) l → unitOffset (sub3 p q) l := by
+    intro p q h
+    simp only [unitOffset, sub3] at h ⊢
+    obtain ⟨h1, h2, h3, h4, h5, h6, h7⟩ := h
+    refine ⟨by omega, by omega, by omega, by omega, by omega, by omega, ?_⟩
+    nlinarith [h7]
+  rw [grid3d_edge_iff xyz hnd, grid3d_edge_iff xyz hnd]
+  constructor
+  · rintro ⟨p, q, hp, hq, hu, hk⟩; exact ⟨q, p, hq, hp, flip p q hu, hk⟩
+  · rintro ⟨p, q, hp, hq, hu, hk⟩; exact ⟨q, p, hq, hp, flip p q hu, hk⟩
+
+/-- no point is its own neighbour -/
+theorem grid3d_no_self_edge (xyz : List Pt) (hnd : xyz.Nodup) (k i : Nat) (l : Int) :
+    (i, i, l) ∉ grid3d xyz k := by
+  rw [grid3d_edge_iff xyz hnd]
+  rintro ⟨p, q, hp, hq, hu, hk⟩
+  rw [hp] at hq
+  cases hq
+  simp only [unitOffset, sub3, sub_self, mul_zero, add_zero] at hu
+  omega
+
+/-- `euclidean_distance` expands `‖x − y‖²` as `‖x‖² + ‖y‖² − 2 x·y` and clips at 0: in exact
+arithmetic the expansion equals the sum of squared differences, which is never negative, so the
+clip is inert and the squared distances are exactly the defined ones (vectors of equal length). -/
+theorem sqDist_eq_def : ∀ (x y : List Rat), x.length = y.length → sqDist x y = sqDistDef x y := by
+  have key : ∀ (x y : List Rat), x.length = y.length →
+      dot x x + dot y y - 2 * dot x y = sqDistDef x y ∧ 0 ≤ sqDistDef x y := by
+    intro x
+    induction x with
+    | nil => intro y hy; cases y with
+      | nil => simp [dot, sqDistDef]
+      | cons b y => simp at hy
+    | cons a x ih => intro y hy; cases y with
+      | nil => simp at hy
+      | cons b y =>
+          obtain ⟨h1, h2⟩ := ih y (by simpa using hy)
+          simp only [dot, sqDistDef, List.zipWith_cons_cons, List.sum_cons, List.map_cons] at h1 h2 ⊢
+          constructor
+          · linarith [h1, mul_comm a b, sq_nonneg (a - b)]
+          · nlinarith [h2, mul_self_nonneg (a - b)]
+  intro x y h
+  obtain ⟨h1, h2⟩ := key x y h
+  unfold sqDist
+  rw [h1]; exact max_eq_left h2
+
+/-- `complete_graph(n)`: every ordered pair (loops included, as written) carries weight 1 -/
+theorem completeGraph_adj (n i j : Nat) (hi : i < n) (hj : j < n) : (completeGraph n).adj i j = 1 :=
+  fromDense_adj' n _ i j hi hj
+
+/-- `subgraph_left(valid, renumb=True)`: exactly the edges whose left end is retained, with the left
+end renumbered by the number of retained vertices before it -/
+theorem subLeft_edges (b : BGraph) (valid : List Bool) (h : BGraph)
+    (hs : subLeft b valid true = .ok (some h)) (hE : b.edges.length ≠ 0) (e' : Edge) :
+    e' ∈ h.edges ↔ ∃ e ∈ b.edges, valid.getD e.1 false = true ∧ e' = (renumb valid e.1, e.2.1, e.2.2) := by
+  unfold subLeft at hs
+  by_cases h1 : valid.length ≠ b.V
+  · rw [if_pos h1] at hs; cases hs
+  · rw [if_neg h1] at hs
+    by_cases h2 : (valid.filter id).length = 0
+    · rw [if_pos h2] at hs; cases hs
+    · rw [if_neg h2, if_neg hE] at hs
+      simp only [if_true, Except.ok.injEq, Option.some.injEq] at hs
+      subst hs
+      simp only [List.mem_map, List.mem_filter]
+      constructor
+      · rintro ⟨e, ⟨he, hv⟩, rfl⟩; exact ⟨e, he, hv, rfl⟩
+      · rintro ⟨e, he, hv, rfl⟩; exact ⟨e, ⟨he, hv⟩, rfl⟩
+
+/-- `is_connected()` on a symmetric graph with at least two vertices and one edge answers whether
+every pair of vertices is joined by a chain of edges (the two early exits `V < 2 → True`,
+`E = 0 → False` are part of the model). -/
+theorem isConnected_iff (g : Graph) (hw : WF g) (hs : Sym g) (hV : 2 ≤ g.V) (hE : g.edges.length ≠ 0) :
+    isConnected g = true ↔ ∀ u v, u < g.V → v < g.V → Conn g u v := by
+  obtain ⟨k, hC, _, hused⟩ := cc_inv' g hw hs
+  have hk := numCC_eq (cc g) k hC.lt hused
+  unfold isConnected
+  rw [if_neg (by omega), if_neg hE, hk]
+  simp only [beq_iff_eq]
+  constructor
+  · rintro rfl u v hu hv
+    obtain ⟨j, hj⟩ := cc_labelled g hw hs u hu
+    obtain ⟨j', hj'⟩ := cc_labelled g hw hs v hv
+    have h0 : j = 0 := by have := hC.lt u j hj; omega
+    have h0' : j' = 0 := by have := hC.lt v j' hj'; omega
+    subst h0; subst h0'
+    exact hC.conn u v 0 hj hj'
+  · intro hall
+    obtain ⟨j, hj⟩ := cc_labelled g hw hs 0 (by omega)
+    have hk1 : 1 ≤ k := by have := hC.lt 0 j hj; omega
+    by_contra hne
+    have hk2 : 2 ≤ k := by omega
+    obtain ⟨v0, hv0⟩ := hused 0 (by omega)
+    obtain ⟨v1, hv1⟩ := hused 1 (by omega)
+    have lt_of : ∀ v j, (cc g).getD v none = some j → v < g.V := by
+      intro v j h
+      by_contra hc
+      rw [getD_none_of_le _ _ (by rw [hC.len]; exact Nat.le_of_not_lt hc)] at h
+      cases h
+    have := cinv_conn_label g hs k (cc g) hC v0 v1 0 (hall v0 v1 (lt_of v0 0 hv0) (lt_of v1 1 hv1)) hv0
+    rw [hv1] at this
+    cases this
+
+/-- `list_of_neighbors()`: row `v` lists exactly the targets of the edges leaving `v` -/
+theorem listOfNeighbors_mem (g : Graph) (v x : Nat) (hv : v < g.V) :
+    x ∈ (listOfNeighbors g).getD v [] ↔ ∃ w, (v, x, w) ∈ g.edges := by
+  unfold listOfNeighbors
+  rw [List.getD_eq_getElem?_getD, List.getElem?_map, List.getElem?_range hv]
+  simp only [Option.map_some, Option.getD_some, List.mem_eraseDups, List.mem_mergeSort]
+  exact ⟨mem_rowOf g v x, fun ⟨w, h⟩ => rowOf_mem g v x w h⟩
+
+/-- `degrees()`: the out-degrees add up to the number of edges (parallel edges and loops counted
+once each), and so do the in-degrees -/
+theorem degrees_sum (g : Graph) (hw : WF g) :
+    (degrees g).1.sum = g.edges.length ∧ (degrees g).2.sum = g.edges.length := by
+  have key : ∀ (f : Edge → Nat) (es : List Edge), (∀ e ∈ es, f e < g.V) →
+      ((List.range g.V).map (fun v => (es.filter (fun e => f e == v)).length)).sum = es.length := by
+    intro f es
+    induction es with
+    | nil => intro _; simp
+    | cons e es ih =>
+        intro h
+        have hone : ∀ V, f e < V → ((List.range V).map (fun v => if f e == v then 1 else 0)).sum = 1 := by
+          intro V
+          induction V with
+          | zero => intro h; omega
+          | succ n ihn =>
+              intro hlt
+              rw [List.range_succ, List.map_append, List.sum_append]
+              by_cases hn : f e = n
+              · have : ((List.range n).map (fun v => if f e == v then 1 else 0)).sum = 0 := by
+                  apply List.sum_eq_zero
+                  intro x hx
+                  simp only [List.mem_map, List.mem_range] at hx
+                  obtain ⟨v, hv, rfl⟩ := hx
+                  have : ¬ f e = v := by omega
+                  simp [this]
+                rw [this]; simp [hn]
+              · rw [ihn (by omega)]; simp [hn]
+        have hsplit : ∀ v, ((e :: es).filter (fun e' => f e' == v)).length =
+            (if f e == v then 1 else 0) + (es.filter (fun e' => f e' == v)).length := by
+          intro v
+          rw [List.filter_cons]
+          by_cases hv : (f e == v) = true
+          · simp [hv]; omega
+          · simp [hv]
+        simp only [hsplit]
+        rw [List.sum_map_add, hone g.V (h e (by simp)), ih (fun e' he' => h e' (List.mem_cons_of_mem _ he'))]
+        simp; omega
+  exact ⟨key (fun e => e.1) g.edges (fun e he => (hw e he).1), key (fun e => e.2.1) g.edges (fun e he => (hw e he).2)⟩
+
+/-- `cross_knn(X, Y, k)`: the weights kept for a point of `X` are the `min k n₂` smallest squared
+distances to the points of `Y` — every kept (unclipped) distance is at most every distance that was
+not kept (for every `k`, also `k ≥ n₂`, where everything is kept). -/
+theorem crossKnn_nearest (row : List Rat) (k : Nat) (a b : Rat)
+    (ha : a ∈ (row.mergeSort (fun x y => decide (x ≤ y))).take k)
+    (hb : b ∈ (row.mergeSort (fun x y => decide (x ≤ y))).drop k) : a ≤ b := by
+  have hs : (row.mergeSort (fun x y => decide (x ≤ y))).Pairwise (fun x y => x ≤ y) := by
+    have := List.pairwise_mergeSort (le := fun (x y : Rat) => decide (x ≤ y))
+      (by intro a b c h1 h2; simp only [decide_eq_true_eq] at *; exact le_trans h1 h2)
+      (by intro a b; simp only [Bool.or_eq_true, decide_eq_true_eq]; exact le_total _ _) row
+    exact this.imp (by intro a b h; simpa using h)
+  rw [← List.take_append_drop k (row.mergeSort (fun x y => decide (x ≤ y)))] at hs
+  exact (List.pairwise_append.mp hs).2.2 a ha b hb
+
 /-! ## Non-vacuity: concrete objects meeting the hypotheses -/
 
 /-- parallel edges 0→1 (3 and 5), then 1→2: the case on which the unrepaired code answered [0,5,4] -/
@@ -394,5 +807,41 @@ example : dijkstra (runHistory ⟨3, [(0, 1, 1), (0, 2, 3), (1, 2, 1)]⟩ [.norm
     = [some 0, some (1/4), some (3/4)] := by decide +kernel
 example : certOK (runHistory ⟨3, [(0, 1, 1), (0, 2, 3), (1, 2, 1)]⟩ [.normalize 0]) [0]
     (dijkstra (runHistory ⟨3, [(0, 1, 1), (0, 2, 3), (1, 2, 1)]⟩ [.normalize 0]) [0]) = true := by decide +kernel
+
+/-- hypotheses of the full theorems are met by ordinary graphs -/
+example : NonNeg ⟨3, [(0, 1, 3), (0, 1, 5), (1, 2, 1)]⟩ ∧ WF ⟨3, [(0, 1, 3), (0, 1, 5), (1, 2, 1)]⟩ := by
+  constructor
+  · intro e he; simp at he; rcases he with rfl | rfl | rfl <;> norm_num
+  · intro e he; simp at he; rcases he with rfl | rfl | rfl <;> simp
+example : Sym ⟨4, [(0, 3, 1), (3, 0, 1)]⟩ := by
+  intro u v w h; simp at h
+  rcases h with ⟨rfl, rfl, rfl⟩ | ⟨rfl, rfl, rfl⟩
+  · exact ⟨1, by simp⟩
+  · exact ⟨1, by simp⟩
+/-- a triangle with a heavy side: the two light sides are selected, both directions each -/
+example : kruskalLoop [(0, 1, 1), (1, 0, 1), (1, 2, 2), (2, 1, 2), (0, 2, 5), (2, 0, 5)] 2 (List.range 3) []
+    = [(0, 1, 1), (1, 0, 1), (1, 2, 2), (2, 1, 2)] := by decide +kernel
+example : Forest 3 [(0, 1, (1 : Rat)), (1, 2, 2)] := by
+  have h1 : Forest 3 ([] ++ [(0, 1, (1 : Rat))]) := Forest.snoc Forest.nil (fun h => by
+    have := conn_nil 3 h; simp at this)
+  have h2 : Forest 3 (([] ++ [(0, 1, (1 : Rat))]) ++ [(1, 2, 2)]) := Forest.snoc h1 (fun h => by
+    have hk := (comp_inv 3 [(0, 1, (1 : Rat))] (by intro e he; simp at he; subst he; simp)).2 1 2 (by omega) (by omega)
+    have : (comp 3 [(0, 1, (1 : Rat))]).getD 1 0 = (comp 3 [(0, 1, (1 : Rat))]).getD 2 0 := hk.mpr h
+    revert this; decide +kernel)
+  simpa using h2
+
+/-- three distinct lattice points in an L shape: the diagonal pair appears from `k = 18` on -/
+example : ([(0, 0, 0), (1, 0, 0), (1, 1, 0)] : List Pt).Nodup := by decide
+example : (0, 2, 2) ∈ grid3d [(5, 5, 5), (6, 5, 5), (6, 6, 5)] 18 :=
+  (grid3d_edge_iff _ (by decide) 18 0 2 2).mpr ⟨(5, 5, 5), (6, 6, 5), rfl, rfl, by decide, by decide⟩
+example : (0, 2, 2) ∉ grid3d [(5, 5, 5), (6, 5, 5), (6, 6, 5)] 6 := by
+  rw [grid3d_edge_iff _ (by decide)]
+  rintro ⟨p, q, _, _, _, (h | ⟨_, h⟩ | ⟨_, h⟩)⟩ <;> omega
+example : RowOK (((1, 1, 1), (1, -1, 0), (1, 0, -1)), (1, 1, 1)) 3 := n26_ok _ (by decide)
+
+/-- the minimum-spanning-tree certificate on a concrete triangle: the two light sides pass, the
+selection containing the heavy side does not -/
+example : mstCertB 3 [(0, 1, 1), (1, 2, 2), (0, 2, 5)] [(0, 1, 1), (1, 2, 2)] = true := by decide +kernel
+example : mstCertB 3 [(0, 1, 1), (1, 2, 2), (0, 2, 5)] [(0, 1, 1), (0, 2, 5)] = false := by decide +kernel
 
 end NipyVerif.C11
